@@ -1,6 +1,6 @@
 (* C06 - output records are atomic and carry the label of the host that produced them.
    Statements only; proofs in Dsh/OutputFacts.v and Base/ShuffleFacts.v. *)
-From PV Require Import Cbuf.CbufDefs Dsh.Output Dsh.OutputSpec Dsh.OutputFacts Base.Shuffle.
+From PV Require Import Cbuf.CbufDefs Cbuf.CbufFd Dsh.Output Dsh.OutputSpec Dsh.OutputFacts Base.Shuffle.
 Local Open Scope N_scope.
 
 (* the descriptor script: what read(2) finds, up to end of file *)
